@@ -20,7 +20,7 @@ META = {
                   "reproduce every input value (timestamps as instants), adding only defaulted optionals; the same inside bundles and 2.0 "
                   "observed-data containers with forward and backward references; (d) parse_into_datetime interpreted symbolically (pysym) on every "
                   "canonical timestamp text with 0-9 fractional digits.",
-    "level_text_more": 'Also: every co-constraint harness of C02 in the accepting direction; 7 documents with 12-element lists, 11 embedded objects and sibling dictionary keys that extend one another, with every JSON path as the single granular selector (marking-ref and lang, alone and in a bundle). 2.1 indicators in each of the 6 pattern languages with and without pattern_version.',
+    "level_text_more": 'Also: every co-constraint harness of C02 in the accepting direction; 7 documents with 12-element lists, 11 embedded objects and sibling dictionary keys that extend one another, with every JSON path as the single granular selector (marking-ref and lang, alone and in a bundle). 2.1 indicators in each of the 6 pattern languages with and without pattern_version. Rounds 5-6: the largest integers of each spec version; contents of marking definitions (empty statement, TLP, extension-defined).',
     "level_note": "Validity of a generated document is taken from the frozen model; a slot is exercised only if the base object accepts an ordinary "
                   "value there (co-constraints are not modelled generically), so rejections caused purely by a co-constraint are not detected here. "
                   "Class x slot tables are selector-enumerated. Open finding C03-frac7 excludes timestamps with 7 or more fractional digits.",
